@@ -9,6 +9,7 @@ import (
 	"fmt"
 	"os"
 	"runtime"
+	"runtime/debug"
 	"strings"
 	"time"
 
@@ -35,11 +36,14 @@ func families(tier string) []*goprog.Family {
 }
 
 func allFamilies(tier string) []*goprog.Family {
+	return append(f10TransferFamilies(), baseFamilies(tier)...)
+}
+
+func baseFamilies(tier string) []*goprog.Family {
 	return []*goprog.Family{
 		// the small families whose cases may hang (20 s watchdog) go first, so that the wait overlaps with the rest
 		f9PlainFamily(),
 		listFamily("F6.templates", f6Cases()),
-		f10TransferFamily(),
 		f10ArrayExprFamily(),
 		f4Family(tier),
 		f1Family(tier),
@@ -72,7 +76,15 @@ func spaces(tier string) []kit.Space {
 	return sps
 }
 
+// MaxHostStack is the largest Go stack a goroutine of the check may use. A
+// Scriggo call must give its host frames back when it returns: with this bound
+// a few hundred thousand sequential calls that each leak a frame overflow the
+// stack (a fatal error that the isolated worker reports as a crash) instead of
+// needing millions of calls to reach the default 1 GB.
+const MaxHostStack = 64 << 20
+
 func main() {
+	debug.SetMaxStack(MaxHostStack)
 	// `c01 prefill <tier>`: warm the gc cache (used by setup.sh)
 	if len(os.Args) >= 2 && os.Args[1] == "prefill" {
 		tier := kit.Tier(os.Args[2:])
